@@ -102,9 +102,10 @@ def mknode(kind, site, counts=(), first=NOFIRST, foreign=None):
 
 
 class State:
-    __slots__ = ("la", "aerr", "prog", "err", "stack", "vals", "since", "saved")
+    __slots__ = ("la", "aerr", "prog", "err", "stack", "vals", "since", "saved", "word")
 
-    def __init__(self, la, aerr, prog, err, stack, vals, since, saved=False):
+    def __init__(self, la, aerr, prog, err, stack, vals, since, saved=False, word=()):
+        self.word = word        # base-level symbols emitted so far (word mode only)
         self.la = la
         self.aerr = aerr
         self.saved = saved      # the current token has already been written to the tree
@@ -115,12 +116,12 @@ class State:
         self.since = since      # tuple of (loop head, progressed since last visit)
 
     def key(self):
-        return (self.la, self.aerr, self.saved, self.prog, self.err, self.stack,
+        return (self.la, self.aerr, self.saved, self.word, self.prog, self.err, self.stack,
                 tuple(sorted(self.vals.items())), self.since)
 
     def key_nola(self):
         shape = tuple((n[0], n[1], n[4]) for n in self.stack)
-        return (self.aerr, self.saved, self.prog, self.err, shape,
+        return (self.aerr, self.saved, self.word, self.prog, self.err, shape,
                 tuple(sorted(self.vals.items())), self.since)
 
     def soft(self):
@@ -144,7 +145,7 @@ class State:
         return changed
 
     def copy(self):
-        return State(self.la, self.aerr, self.prog, self.err, self.stack, dict(self.vals), self.since, self.saved)
+        return State(self.la, self.aerr, self.prog, self.err, self.stack, dict(self.vals), self.since, self.saved, self.word)
 
 
 class Outcome(tuple):
@@ -191,6 +192,9 @@ class ParserAI:
         self.states_explored = 0
         self.changed = False
         self.ctx_by_fn = defaultdict(set)
+        self.wordmode = False   # phase 2: record the base-level symbol word of each outcome
+        self.recording = None   # phase 2: ctx -> list of (src vertex, label, dst vertex)
+        self.rec_entry = {}
         self.discipline = {}    # violations of the save/lex alternation and of `current` provenance
         self.assert_calls = defaultdict(set)   # (fn, bb) -> set of (la, kind) at calls of ParserBase::assert
         self.call_la = defaultdict(set)  # (caller fn, bb, callee) -> la sets seen
@@ -435,6 +439,8 @@ class ParserAI:
         try:
             seen = {}
             work = [(0, st0)]
+            if self.recording is not None:
+                self.rec_entry[ctx] = (0, st0.key_nola())
             while work:
                 b, st = work.pop()
                 # join: states that differ only in the look-ahead set are merged (union)
@@ -450,8 +456,19 @@ class ParserAI:
                 if len(seen) > 400000:
                     self.unsupported[(fn, "state-explosion")] = len(seen)
                     break
-                for nb, nst in self.step(ctx, body, b, st, outcomes):
-                    work.append((nb, nst))
+                succs = self.step(ctx, body, b, st, outcomes)
+                if self.recording is not None:
+                    rec = self.recording.setdefault(ctx, [])
+                    for item in succs:
+                        nb, nst = item[0], item[1]
+                        lab = item[2] if len(item) > 2 else None
+                        if nb == "RET":
+                            rec.append((k, lab, ("RET", nst)))
+                        else:
+                            rec.append((k, lab, (nb, nst.key_nola())))
+                for item in succs:
+                    if item[0] != "RET":
+                        work.append((item[0], item[1]))
         finally:
             self.active.pop()
         new = frozenset(outcomes)
@@ -525,8 +542,13 @@ class ParserAI:
                 # calling contexts finite and small); positive knowledge (small sets) stays exact
                 la_out = self.ALL if st.prog else la_out
             first = coarse_first(base[3])
-            out = Outcome((la_out, (st.aerr, st.saved), st.prog, st.err, ret, base[2], first, acts))
+            if self.wordmode:
+                out = Outcome((la_out, (st.aerr, st.saved), st.prog, st.err, ret, base[2], first, acts, st.word))
+            else:
+                out = Outcome((la_out, (st.aerr, st.saved), st.prog, st.err, ret, base[2], first, acts))
             outcomes.add(out)
+            if self.recording is not None:
+                return [("RET", out, None)]
             return []
         if k == "unreachable":
             return []
@@ -670,7 +692,20 @@ class ParserAI:
                 return cont(st, ("fresh",))
             return cont(st)
         if callee.startswith("rowan::GreenNodeBuilder::"):
-            return self.bi_builder(ctx, body, b, callee.rsplit("::", 1)[-1], st, args, cont)
+            name = callee.rsplit("::", 1)[-1]
+            kv = None
+            for a in args[1:]:
+                a = self.deref(st, a)
+                if a[0] == "sk":
+                    kv = a[1]
+            cpfn = None
+            if name == "start_node_at" and len(args) > 1:
+                cpv = self.deref(st, args[1])
+                cpfn = cpv[4] if cpv[0] == "cp" else None
+            if name == "checkpoint":
+                cpfn = fn
+            res = self.bi_builder(ctx, body, b, name, st, args, cont)
+            return [(x[0], x[1], ("bi", name, kv, x[1].la if name == "token" else None, cpfn)) for x in res]
         if callee == "std::vec::Vec::<T, A>::push":
             ga = f.get("args") or []
             if ga and ga[0].get("ty") == "syntax::error::SyntaxError":
@@ -743,8 +778,11 @@ class ParserAI:
         self.active[-1][1] = st.prog
         outs = self.summary(callee, st.la, (st.aerr, st.saved), argvals, caller=ctx)
         res = []
-        for (la, (aerr, saved), prog, err, ret, opened, first, actions) in outs:
+        for oc in outs:
+            (la, (aerr, saved), prog, err, ret, opened, first, actions) = oc[:8]
             s2 = st.copy()
+            if self.wordmode and len(oc) > 8:
+                s2.word = s2.word + oc[8]
             if la != st.la or prog:
                 # the current token may have changed: stale token-derived values die
                 for k in [k for k, v in s2.vals.items() if self.mentions_cur(v)]:
@@ -774,7 +812,8 @@ class ParserAI:
                     ret = ("cp", top[1], cmerge(precounts, ret[2]), len(s2.stack), fn)
                 else:
                     ret = UNK
-            res.extend(cont(s2, ret))
+            for item in cont(s2, ret):
+                res.append((item[0], item[1], ("call", callee, (callee, st.la, (st.aerr, st.saved), argvals), oc)))
         return res
 
     def note_progress(self, s):
@@ -852,6 +891,10 @@ class ParserAI:
                 s2 = st.copy()
                 s2.la = rest
                 self.note_progress(s2)
+                if self.wordmode and len(s2.stack) == 1:
+                    nt_ = rest - self.trivia
+                    if nt_:
+                        s2.word = s2.word + (("t", frozenset(nt_)),)
                 nt = rest - self.trivia if (rest - self.trivia) else rest
                 if len(nt) > 60:
                     nt = frozenset(["<any>"])
@@ -865,10 +908,14 @@ class ParserAI:
                 self.unsupported[(fn, "start_node-kind")] = body.where(b)
             self.node_sites[kn].add(site)
             top = st.stack[-1]
+            if self.wordmode and len(st.stack) == 1:
+                st.word = st.word + (("open", kn),)
             st.stack = st.stack[:-1] + ((top[0], top[1], self.cadd_k(top[2], kn), top[3], top[4]),) + (mknode(kn, site),)
             return cont(st)
         if name == "checkpoint":
             top = st.stack[-1]
+            if self.wordmode and len(st.stack) == 1:
+                st.word = st.word + (("cp",),)
             return cont(st, ("cp", top[1], top[2], len(st.stack), fn))
         if name == "start_node_at":
             cp = self.deref(st, args[1]) if len(args) > 1 else UNK
@@ -876,6 +923,8 @@ class ParserAI:
             kn = kind[1] if kind[0] == "sk" else "?"
             self.node_sites[kn].add(site)
             top = st.stack[-1]
+            if self.wordmode and len(st.stack) == 1:
+                st.word = st.word + (("open_at", kn),)
             if cp[0] == "cp" and cp[4] == fn and cp[3] == len(st.stack) and cp[1] == top[1] and len(st.stack) > 1:
                 wrapped = cdiff(top[2], cp[2])
                 ntop = (top[0], top[1], self.cadd_k(cp[2], kn), top[3], top[4])
@@ -897,6 +946,8 @@ class ParserAI:
             st.stack = st.stack + (mknode(kn, site),)
             return cont(st)
         if name == "finish_node":
+            if self.wordmode and len(st.stack) <= 2:
+                st.word = st.word + (("close",),)
             if len(st.stack) <= 1:
                 base = st.stack[0]
                 # closes a node opened by a caller: the caller applies it; children opened so far at
